@@ -176,7 +176,7 @@ var frameNames = []string{"raw", "hex", "HEX", "\\x-hex", "srid-prefix"}
 func sameBoundBits(a, b orb.Geometry) bool { return refmodel.EqualBits(a, b) }
 
 func init() {
-	opts := &gen.GeomOpts{Float: gen.FloatAll, Empty: true, EmptyParts: true, RingBound: true}
+	opts := &gen.GeomOpts{Float: gen.FloatAll, Empty: true, EmptyParts: true, RingBound: true, SharedMembers: true}
 	srids := []int{1, 4326, 255, 256, 257, 0x3030, 0x3130, 0x785c, 3857, 1<<31 - 1, 0x01000000, 65536}
 
 	h.Register(&h.Monitor{
@@ -525,6 +525,43 @@ func c01one(c *h.Ctx, r *h.Rand, g, snap, want orb.Geometry, isNil bool, order b
 		if len(pdata) < 4 || binary.LittleEndian.Uint32(pdata) != uint32(srid) || !bytes.Equal(pdata[4:], wkb.MustMarshal(g)) {
 			fail("", "ewkb.ValuePrefixSRID is not a 4 byte little endian SRID followed by plain WKB", nil)
 		}
+	}
+
+	// the byte order left unsaid is the package's DefaultByteOrder, whatever it has been set to; a new ewkb encoder
+	// starts with DefaultSRID
+	if r.P(1, 8) {
+		oldW, oldE, oldS := wkb.DefaultByteOrder, ewkb.DefaultByteOrder, ewkb.DefaultSRID
+		wkb.DefaultByteOrder, ewkb.DefaultByteOrder = order, order
+		ewkb.DefaultSRID = srid
+		d1, e1 := wkb.Marshal(g)
+		d2, e2 := ewkb.Marshal(g, srid)
+		hx, e3 := wkb.MarshalToHex(g)
+		var b3 bytes.Buffer
+		e4 := ewkb.NewEncoder(&b3).Encode(g)
+		var b4 bytes.Buffer
+		e5 := wkb.NewEncoder(&b4).Encode(g)
+		// the SQL Value wrappers have no byte-order argument at all: what they write must scan back to this value and SRID
+		vp, e6 := ewkb.ValuePrefixSRID(g, srid).Value()
+		vs := ewkb.ScannerPrefixSRID(nil)
+		var e7 error = errors.New("ValuePrefixSRID did not return bytes")
+		if b, ok := vp.([]byte); ok {
+			e7 = vs.Scan(append([]byte{}, b...))
+		}
+		ve, e8 := ewkb.Value(g, srid).Value()
+		es2 := ewkb.Scanner(nil)
+		var e9 error = errors.New("ewkb.Value did not return bytes")
+		if b, ok := ve.([]byte); ok {
+			e9 = es2.Scan(append([]byte{}, b...))
+		}
+		wkb.DefaultByteOrder, ewkb.DefaultByteOrder, ewkb.DefaultSRID = oldW, oldE, oldS
+		if e6 != nil || e7 != nil || e8 != nil || e9 != nil || !refmodel.EqualBits(vs.Geometry, want) || vs.SRID != srid || !refmodel.EqualBits(es2.Geometry, want) || es2.SRID != srid {
+			fail("", "with DefaultByteOrder set to this case's byte order, what ewkb.Value / ValuePrefixSRID write does not scan back to the value and SRID", map[string]interface{}{"errs": sv([]error{e6, e7, e8, e9}), "prefix_srid": vs.SRID, "srid": es2.SRID, "prefix_geometry": sv(vs.Geometry)})
+		}
+		if e1 != nil || e2 != nil || e3 != nil || e4 != nil || e5 != nil || !bytes.Equal(d1, wdata) || !bytes.Equal(d2, edata) || hx != hex.EncodeToString(wdata) || !bytes.Equal(b3.Bytes(), edata) || !bytes.Equal(b4.Bytes(), wdata) {
+			fail("", "with DefaultByteOrder / DefaultSRID set to this case's values, the entry points that leave them unsaid do not produce the same bytes", map[string]interface{}{"errs": sv([]error{e1, e2, e3, e4, e5})})
+		}
+		c.Count("cases_with_package_defaults_changed", 1)
+		c.Evals(5)
 	}
 
 	// bytes returned by an earlier Marshal call stay the caller's
